@@ -23,8 +23,13 @@ func deleteChildOperator(d *dataTreeNavigator, context Context, expressionNode *
 		alreadyDeleted[candidate] = true
 
 		if candidate.Parent == nil {
-			// must be a top level thing, delete it
-			return removeFromContext(context, candidate)
+			// must be a top level thing, delete it (and carry on: more than one document may be selected)
+			var err error
+			context, err = removeFromContext(context, candidate)
+			if err != nil {
+				return Context{}, err
+			}
+			continue
 		}
 		log.Debugf("processing deletion of candidate %v", NodeToString(candidate))
 
